@@ -151,50 +151,52 @@ Proof.
   rewrite blen_app, IH, He. unfold blen. cbn [length]. lia.
 Qed.
 
-Lemma write_vector8_wst b mx p es : Forall (fun e => blen e = 8) es ->
-  blen b + (8 + 8 * blen es) <= mx -> blen b + (8 + 8 * blen es) < W64 ->
-  write_vector (wst b mx p) 8 es = wst (b ++ le64 (blen es) ++ concat es) mx p.
+Lemma write_vector_wst b mx p sz es : Forall (fun e => blen e = sz) es ->
+  blen b + (8 + sz * blen es) <= mx -> blen b + (8 + sz * blen es) < W64 ->
+  write_vector (wst b mx p) sz es = wst (b ++ le64 (blen es) ++ concat es) mx p.
 Proof.
   intros Hes H1 H2. unfold write_vector.
-  pose proof (blen_concat 8 es Hes) as Hc.
-  rewrite (w64_small (8 * blen es)) by lia.
-  rewrite (w64_small (8 + 8 * blen es)) by lia.
+  pose proof (blen_concat sz es Hes) as Hc.
+  rewrite (w64_small (sz * blen es)) by lia.
+  rewrite (w64_small (8 + sz * blen es)) by lia.
   rewrite (expand_wst b mx p _ H1 H2).
-  rewrite <- (blen_le64 (blen es)) at 3.
+  replace (put (mkMS (b ++ repeat 0 (N.to_nat (8 + sz * blen es))) (blen b) mx false false false p false) (le64 (blen es)) 8)
+    with (put (mkMS (b ++ repeat 0 (N.to_nat (8 + sz * blen es))) (blen b) mx false false false p false) (le64 (blen es)) (blen (le64 (blen es))))
+    by (now rewrite blen_le64).
   rewrite put_fresh; [| rewrite le64_length; lia | rewrite blen_le64; lia].
-  rewrite (w64_small (blen es * 8)) by lia.
-  replace (blen es * 8) with (blen (concat es)) by lia.
+  rewrite (w64_small (blen es * sz)) by lia.
+  replace (blen es * sz) with (blen (concat es)) by lia.
   rewrite put_fresh; [| rewrite le64_length; unfold blen in *; lia | rewrite blen_app, blen_le64; lia].
   rewrite le64_length.
-  replace (N.to_nat (8 + 8 * blen es) - 8 - length (concat es))%nat with 0%nat by (unfold blen in *; lia).
+  replace (N.to_nat (8 + sz * blen es) - 8 - length (concat es))%nat with 0%nat by (unfold blen in *; lia).
   cbn [repeat]. rewrite app_nil_r. now rewrite <- app_assoc.
 Qed.
 
 Lemma blen_enc_vec sz es : Forall (fun e => blen e = sz) es -> blen (enc (IVec sz es)) = 8 + sz * blen es.
 Proof. intros H. cbn [enc]. now rewrite blen_app, blen_le64, (blen_concat sz es H). Qed.
 
-Lemma write_item_wst b mx p i : item_ok i -> vec8 i ->
+Lemma write_item_wst b mx p i : item_ok i ->
   blen b + blen (enc i) <= mx -> blen b + blen (enc i) < W64 ->
   write_item (wst b mx p) i = wst (b ++ enc i) mx p.
 Proof.
-  destruct i as [x|x|sz es]; cbn [item_ok vec8 write_item enc]; intros Hok H8 H1 H2.
+  destruct i as [x|x|sz es]; cbn [item_ok write_item enc]; intros Hok H1 H2.
   - now apply write_object_wst.
   - rewrite blen_app, blen_le64 in H1, H2. now apply write_string_wst.
-  - subst sz. destruct Hok as (_ & Hes & _).
-    rewrite blen_app, blen_le64, (blen_concat 8 es Hes) in H1, H2.
-    now apply write_vector8_wst.
+  - destruct Hok as (_ & Hes & _).
+    rewrite blen_app, blen_le64, (blen_concat sz es Hes) in H1, H2.
+    now apply write_vector_wst.
 Qed.
 
 Lemma enc_all_cons i l : enc_all (i :: l) = enc i ++ enc_all l.
 Proof. reflexivity. Qed.
 
-Lemma write_items_wst l : forall b mx p, Forall item_ok l -> Forall vec8 l ->
+Lemma write_items_wst l : forall b mx p, Forall item_ok l ->
   blen b + blen (enc_all l) <= mx -> blen b + blen (enc_all l) < W64 ->
   write_items (wst b mx p) l = wst (b ++ enc_all l) mx p.
 Proof.
-  induction l as [|i l IH]; intros b mx p Hok H8 H1 H2.
+  induction l as [|i l IH]; intros b mx p Hok H1 H2.
   - cbn [write_items fold_left enc_all map concat]. now rewrite app_nil_r.
-  - inversion Hok as [|? ? Hi Hl]; subst. inversion H8 as [|? ? Hi8 Hl8]; subst.
+  - inversion Hok as [|? ? Hi Hl]; subst.
     rewrite enc_all_cons, blen_app in H1, H2.
     unfold write_items. cbn [fold_left]. fold (write_items (write_item (wst b mx p) i) l).
     rewrite write_item_wst by (auto; lia).
@@ -218,6 +220,10 @@ Definition rst (buf : list byte) (mx : N) (e f bd : bool) (p : N) (o : bool) : m
 Lemma has_remaining_rst buf mx e f bd p o c : p <= blen buf -> blen buf < W64 ->
   has_remaining (rst buf mx e f bd p o) c = (c <=? blen buf - p).
 Proof. intros H1 H2. unfold has_remaining, rst. cbn [ms_len ms_pos]. now rewrite wsub_ok. Qed.
+
+Lemma rem_rst buf mx e f bd p o : p <= blen buf -> blen buf < W64 ->
+  wsub (ms_len (rst buf mx e f bd p o)) (ms_pos (rst buf mx e f bd p o)) = blen buf - p.
+Proof. intros H1 H2. unfold rst. cbn [ms_len ms_pos]. now rewrite wsub_ok. Qed.
 
 Lemma take_mid b1 x b2 mx e f bd o n : n = blen x -> blen (b1 ++ x ++ b2) < W64 ->
   take (rst (b1 ++ x ++ b2) mx e f bd (blen b1) o) n
@@ -283,8 +289,9 @@ Proof.
   rewrite (take_mid b1 (le64 (blen es)) (concat es ++ b2) mx true f bd o 8) by bl.
   rewrite of_le_le64 by nia.
   rewrite (w64_small (blen es * sz)) by lia.
-  rewrite has_remaining_rst by bl.
-  replace (blen es * sz <=? _) with true by (symmetry; apply N.leb_le; bl).
+  rewrite rem_rst by bl.
+  replace (blen es <=? _ / sz) with true
+    by (symmetry; apply N.leb_le; apply N.div_le_lower_bound; bl).
   replace (max_elems sz <? blen es) with false.
   2:{ symmetry. apply N.ltb_ge. unfold max_elems. apply N.div_le_lower_bound; lia. }
   rewrite (app_assoc b1 (le64 (blen es)) (concat es ++ b2)).
@@ -322,14 +329,14 @@ Proof.
 Qed.
 
 (* ---------------------------------------------------------------- the round trip *)
-Lemma stream_roundtrip l mx : Forall item_ok l -> Forall vec8 l ->
+Lemma stream_roundtrip l mx : Forall item_ok l ->
   blen (enc_all l) <= mx -> blen (enc_all l) < W64 ->
   let w := write_items (empty_stream mx) l in
   output w = (enc_all l, false) /\ good w = true /\ ms_oob w = false /\
   exists s', read_items (input_stream (fst (output w))) (map shape_of l) = (l, s', true)
              /\ good s' = true /\ ms_pos s' = ms_len s' /\ ms_oob s' = false.
 Proof.
-  intros Hok H8 H1 H2 w.
+  intros Hok H1 H2 w.
   assert (Hw : w = wst (enc_all l) mx 0).
   { unfold w. change (empty_stream mx) with (wst [] mx 0).
     rewrite write_items_wst by (auto; rewrite blen_nil; lia). reflexivity. }
@@ -403,9 +410,9 @@ Proof.
   assert (Hcl : blen es * sz = blen l + blen x') by (rewrite Hb, blen_app in Hc; lia).
   rewrite (take_mid b1 (le64 (blen es)) l mx true false false o 8) by bl.
   rewrite of_le_le64 by lia.
-  rewrite (w64_small (blen es * sz)) by (unfold PTRDIFF_MAX, W64 in *; lia).
-  rewrite has_remaining_rst by bl.
-  replace (blen es * sz <=? _) with false by (symmetry; apply N.leb_gt; bl).
+  rewrite rem_rst by bl.
+  replace (blen es <=? _ / sz) with false
+    by (symmetry; apply N.leb_gt; apply N.div_lt_upper_bound; bl).
   eexists. split; [reflexivity|]. split; reflexivity.
 Qed.
 
@@ -499,6 +506,18 @@ Proof.
   - exact H1.
 Qed.
 
+Lemma rem_inv s : rinv s -> wsub (ms_len s) (ms_pos s) = ms_len s - ms_pos s.
+Proof. intros (H1 & H2 & H3 & H4). now rewrite wsub_ok. Qed.
+
+(* n elements of sz bytes fit in rem bytes when n <= rem / sz: the product cannot wrap *)
+Lemma elems_fit n sz rem : rem < W64 -> n <= rem / sz -> w64 (n * sz) = n * sz /\ n * sz <= rem.
+Proof.
+  intros Hr Hn. assert (H : n * sz <= rem).
+  { destruct (N.eq_dec sz 0) as [->|Hz]; [lia|].
+    pose proof (N.mul_div_le rem sz Hz). nia. }
+  split; [apply w64_small; lia | exact H].
+Qed.
+
 Lemma read_vector_inv s sz : rinv s -> rinv (snd (read_vector s sz)).
 Proof.
   intros H. unfold read_vector.
@@ -508,10 +527,12 @@ Proof.
   apply N.leb_le in E. rewrite (take_eq (begin_reading s) 8).
   destruct (take_inv _ 8 H0 E) as (H1 & Hp & Hb & Hl).
   set (s1 := snd (take (begin_reading s) 8)) in *.
-  rewrite (has_remaining_inv _ _ H1).
-  destruct (_ <=? ms_len s1 - ms_pos s1) eqn:E2; cbn [snd].
+  rewrite (rem_inv _ H1).
+  destruct (_ <=? (ms_len s1 - ms_pos s1) / sz) eqn:E2; cbn [snd].
   - apply N.leb_le in E2. destruct (max_elems sz <? _); cbn [snd]; [exact H1|].
-    rewrite take_eq. cbn [snd]. apply rinv_state. now apply take_inv.
+    assert (Hlt : ms_len s1 - ms_pos s1 < W64) by (destruct H1 as (_ & _ & Hw & _); lia).
+    destruct (elems_fit _ _ _ Hlt E2) as [Hw Hfit].
+    rewrite take_eq. cbn [snd]. apply rinv_state. apply take_inv; [exact H1 | now rewrite Hw].
   - exact H1.
 Qed.
 
@@ -560,9 +581,10 @@ Proof.
   destruct (take s1 (of_le lb)). cbn. discriminate.
 Qed.
 
-(* on a buffer that fits in memory, a vector read throws only when the size product wraps *)
-Lemma read_vector_throw_only_by_wrap s sz n : rinv s -> ms_len s <= PTRDIFF_MAX -> 0 < sz ->
-  fst (read_vector s sz) = RThrow n -> W64 <= n * sz.
+(* on a buffer that fits in memory (at most PTRDIFF_MAX bytes, as every C++ object), a vector read
+   never asks std::vector::resize for more elements than max_size(): it cannot throw *)
+Lemma read_vector_never_throws s sz n : rinv s -> ms_len s <= PTRDIFF_MAX -> 0 < sz ->
+  fst (read_vector s sz) <> RThrow n.
 Proof.
   intros H Hmem Hsz. unfold read_vector.
   assert (H0 : rinv (begin_reading s)) by exact H.
@@ -572,18 +594,45 @@ Proof.
   destruct (take_inv _ 8 H0 E) as (H1 & Hp & Hb & Hl).
   set (s1 := snd (take (begin_reading s) 8)) in *.
   set (m := of_le (fst (take (begin_reading s) 8))).
-  rewrite (has_remaining_inv _ _ H1).
-  destruct (_ <=? ms_len s1 - ms_pos s1) eqn:E2; cbn [fst]; [|discriminate].
+  rewrite (rem_inv _ H1).
+  destruct (_ <=? (ms_len s1 - ms_pos s1) / sz) eqn:E2; cbn [fst]; [|discriminate].
   apply N.leb_le in E2.
-  destruct (max_elems sz <? m) eqn:E3; cbn [fst].
-  - intros Hr. inversion Hr as [Hm]. subst n.
-    apply N.ltb_lt in E3. unfold max_elems in E3.
-    destruct (N.lt_ge_cases (m * sz) W64) as [Hlt|Hge]; [|exact Hge].
-    exfalso. rewrite (w64_small _ Hlt) in E2.
-    change (ms_len (begin_reading s)) with (ms_len s) in Hl.
-    assert (Hle : m <= PTRDIFF_MAX / sz) by (apply N.div_le_lower_bound; lia).
-    lia.
-  - rewrite take_eq. cbn [fst]. discriminate.
+  change (ms_len (begin_reading s)) with (ms_len s) in Hl.
+  assert (Hle : (ms_len s1 - ms_pos s1) / sz <= PTRDIFF_MAX / sz) by (apply N.div_le_mono; lia).
+  replace (max_elems sz <? m) with false by (symmetry; apply N.ltb_ge; unfold max_elems; lia).
+  rewrite take_eq. cbn [fst]. discriminate.
+Qed.
+
+Lemma chunks_length k sz bs : blen (chunks k sz bs) = N.of_nat k.
+Proof.
+  unfold blen. f_equal. revert bs.
+  induction k as [|k IH]; intros bs; cbn [chunks length]; [reflexivity | now rewrite IH].
+Qed.
+
+(* a vector read that delivers n elements found n * sz bytes after the length prefix: the allocation
+   is bounded by the data that is there *)
+Lemma read_vector_alloc_bounded s sz v s' : rinv s -> 0 < sz -> read_vector s sz = (RVec v, s') ->
+  blen v * sz + 8 <= ms_len s - ms_pos s.
+Proof.
+  intros H Hsz. unfold read_vector.
+  assert (H0 : rinv (begin_reading s)) by exact H.
+  rewrite (has_remaining_inv _ 8 H0).
+  destruct (8 <=? _) eqn:E; [|discriminate].
+  apply N.leb_le in E. rewrite (take_eq (begin_reading s) 8).
+  destruct (take_inv _ 8 H0 E) as (H1 & Hp & Hb & Hl).
+  set (s1 := snd (take (begin_reading s) 8)) in *.
+  set (m := of_le (fst (take (begin_reading s) 8))).
+  rewrite (rem_inv _ H1).
+  destruct (_ <=? (ms_len s1 - ms_pos s1) / sz) eqn:E2; [|discriminate].
+  apply N.leb_le in E2.
+  destruct (max_elems sz <? m); [discriminate|].
+  rewrite take_eq. intros Hr. inversion Hr as [[Hv Hs]]. clear Hr Hs.
+  assert (Hlt : ms_len s1 - ms_pos s1 < W64) by (destruct H1 as (_ & _ & Hw & _); lia).
+  destruct (elems_fit _ _ _ Hlt E2) as [Hw Hfit].
+  rewrite chunks_length, N2Nat.id.
+  change (ms_len (begin_reading s)) with (ms_len s) in Hl, E.
+  change (ms_pos (begin_reading s)) with (ms_pos s) in Hp, E.
+  lia.
 Qed.
 
 (* ---------------------------------------------------------------- single-item corollaries *)
@@ -595,7 +644,6 @@ Lemma object_roundtrip (b : list byte) mx : blen b <= mx -> blen b < W64 ->
 Proof.
   intros H1 H2.
   destruct (stream_roundtrip [IObj b] mx) as (Ho & _ & _ & s' & Hr & Hg & Hp & _).
-  - repeat constructor.
   - repeat constructor.
   - unfold enc_all. cbn [map concat enc]. now rewrite app_nil_r.
   - unfold enc_all. cbn [map concat enc]. now rewrite app_nil_r.
@@ -614,7 +662,6 @@ Proof.
   intros H1 H2.
   destruct (stream_roundtrip [IStr b] mx) as (Ho & _ & _ & s' & Hr & Hg & Hp & _).
   - repeat constructor. cbn [item_ok]. exact H2.
-  - repeat constructor.
   - unfold enc_all. cbn [map concat enc]. rewrite app_nil_r, blen_app, blen_le64. exact H1.
   - unfold enc_all. cbn [map concat enc]. rewrite app_nil_r, blen_app, blen_le64. exact H2.
   - unfold enc_all in *. cbn [map concat enc write_items fold_left write_item shape_of read_items read_shape] in *.
@@ -623,18 +670,16 @@ Proof.
     exists s1. inversion Hr; subst. auto.
 Qed.
 
-Lemma vector8_roundtrip (es : list (list byte)) mx : Forall (fun e => blen e = 8) es ->
-  8 * blen es <= PTRDIFF_MAX -> 8 + 8 * blen es <= mx ->
-  let w := write_vector (empty_stream mx) 8 es in
+Lemma vector_roundtrip (sz : N) (es : list (list byte)) mx : item_ok (IVec sz es) -> 8 + sz * blen es <= mx ->
+  let w := write_vector (empty_stream mx) sz es in
   output w = (le64 (blen es) ++ concat es, false) /\
-  exists s', read_vector (input_stream (fst (output w))) 8 = (RVec es, s')
+  exists s', read_vector (input_stream (fst (output w))) sz = (RVec es, s')
              /\ good s' = true /\ ms_pos s' = ms_len s'.
 Proof.
-  intros Hes Hm H1.
-  assert (Hc := blen_concat 8 es Hes).
-  destruct (stream_roundtrip [IVec 8 es] mx) as (Ho & _ & _ & s' & Hr & Hg & Hp & _).
+  intros Hok H1. pose proof Hok as (Hsz & Hes & Hm).
+  assert (Hc := blen_concat sz es Hes).
+  destruct (stream_roundtrip [IVec sz es] mx) as (Ho & _ & _ & s' & Hr & Hg & Hp & _).
   - repeat constructor; auto.
-  - repeat constructor.
   - unfold enc_all. cbn [map concat enc]. rewrite app_nil_r, blen_app, blen_le64. lia.
   - unfold enc_all. cbn [map concat enc]. rewrite app_nil_r, blen_app, blen_le64.
     unfold PTRDIFF_MAX, W64 in *. lia.
@@ -642,4 +687,27 @@ Proof.
     rewrite app_nil_r in *. split; [exact Ho|].
     destruct (read_vector _ _) as [r s1] eqn:E. destruct r; cbn [item_of] in Hr; try discriminate.
     exists s1. inversion Hr; subst. auto.
+Qed.
+
+(* the write cursor of write_vector stays inside the buffer, for every element size, whether or not
+   the data fits under max_length *)
+Lemma write_cursor_in_buffer (sz : N) (es : list (list byte)) mx : item_ok (IVec sz es) ->
+  let w := write_vector (empty_stream mx) sz es in
+  ms_len w <= blen (ms_buf w) /\ ms_oob w = false.
+Proof.
+  intros Hok w. pose proof Hok as (Hsz & Hes & Hm).
+  destruct (N.le_gt_cases (8 + sz * blen es) mx) as [Hfit|Hbig].
+  - assert (Hw : w = wst (le64 (blen es) ++ concat es) mx 0).
+    { unfold w. change (empty_stream mx) with (wst [] mx 0).
+      rewrite write_vector_wst; [reflexivity | exact Hes | rewrite blen_nil; lia |
+                                 rewrite blen_nil; unfold PTRDIFF_MAX, W64 in *; lia]. }
+    rewrite Hw. unfold wst. cbn [ms_len ms_buf ms_oob]. split; [lia | reflexivity].
+  - unfold w, write_vector, expand, empty_stream.
+    cbn [ms_buf ms_max ms_len ms_eof ms_fail ms_bad ms_pos ms_oob].
+    rewrite (w64_small (sz * blen es)) by (unfold PTRDIFF_MAX, W64 in *; lia).
+    rewrite blen_nil, N.add_0_l.
+    rewrite (w64_small (8 + sz * blen es)) by (unfold PTRDIFF_MAX, W64 in *; lia).
+    rewrite (w64_small (8 + sz * blen es)) by (unfold PTRDIFF_MAX, W64 in *; lia).
+    replace (8 + sz * blen es <=? mx) with false by (symmetry; apply N.leb_gt; lia).
+    cbn. split; [lia | reflexivity].
 Qed.
